@@ -85,9 +85,21 @@ def run_one(m, mode):
 
 def main():
     mode = sys.argv[1] if len(sys.argv) > 1 else "static"
+    as_json = False
+    if mode == "json":
+        mode, as_json = "static", True
     ms = load(set(sys.argv[2:]))
+    if as_json:
+        # restrict every mutant to the requested properties
+        want = set(sys.argv[2:])
+        for m in ms:
+            props = m["property"] if isinstance(m["property"], list) else [m["property"]]
+            m["property"] = [p for p in props if p in want] or props
     with cf.ThreadPoolExecutor(max_workers=8) as ex:
         results = list(ex.map(lambda m: run_one(m, mode), ms))
+    if as_json:
+        print(json.dumps(results))
+        return
     bad = 0
     for r in results:
         extra = ""
